@@ -33,21 +33,27 @@ def run(ctx):
     ctx.inst("C05-expander-facts", "non-hygienic", {"emits_template_symbol_unchanged": emits_sym and not renames})
     hygienic = bool(renames) or not emits_sym
     # the text compiled in: the constant in the thread-local initialiser equals the file analysed
-    init = [f for f in fb.all("lib") if f.name.endswith("BINDINGS::__rust_std_internal_init_fn")]
-    same = None
-    if init:
-        import os
-        txt = None
-        for b, t in init[0].calls():
+    # (whichever function holds the include_str! constant: any `chars()` over a string constant in the parser module)
+    import os
+    path = os.path.join(os.environ.get("VERIF_REPO", "/repo"), derived.GRAMMAR)
+    file_text = open(path).read()
+    loaded = []
+    for f in fb.all("lib"):
+        if not (f.name.startswith("parser::") or f.name.startswith("<parser::")):
+            continue
+        for b, t in f.calls():
             if callee_matches(t, "<impl str>::chars"):
-                txt = mir.str_of(init[0], t["args"][0])
-        path = os.path.join(os.environ.get("VERIF_REPO", "/repo"), derived.GRAMMAR)
-        same = txt is not None and txt == open(path).read()
-        ctx.inst("C05-expander-facts", "compiled-text", {"equals_file": same, "bytes": len(txt or "")})
-        if not same:
-            ctx.report("C05-expander-facts", "compiled-text", "the text loaded by create_syntax_binding is not %s" % derived.GRAMMAR, where_of(init[0]))
-    else:
-        ctx.report("C05-expander-facts", "loader", "the loader of the bundled derived forms was not found", None)
+                txt = mir.str_of(f, t["args"][0])
+                if txt is not None and len(txt) > 200:
+                    loaded.append((f, txt))
+    same = any(txt == file_text for _, txt in loaded)
+    ctx.inst("C05-expander-facts", "compiled-text", {"equals_file": same, "loaders": [f.name for f, _ in loaded]})
+    if loaded and not same:
+        ctx.report("C05-expander-facts", "compiled-text", "the text compiled into the parser (%s) is not %s" % ([f.name for f, _ in loaded], derived.GRAMMAR),
+                   where_of(loaded[0][0]))
+    elif not loaded:
+        ctx.undecided("C05-expander-facts", "loader", "no function of the parser module loads a compiled-in text: cannot tell which file defines "
+                      "the derived forms", None)
     mf, an = derived.c05_rules(ctx) if not hygienic else (None, None)
     if hygienic:
         ctx.note("the expander renames template identifiers: capture rules do not apply as written")
@@ -60,6 +66,8 @@ def run(ctx):
                               "and visibility, to the same value as the R7RS definition")
     total = 0
     for (kw, idx), (r, sk, rm) in sorted(an.items()):
+        if kw not in derived.NINE:
+            continue          # a helper macro of the file: it has no R7RS meaning of its own; it is expanded inside the forms that use it
         atomic = [v for v, role in rm.items() if role == "KEY"] if kw == "case" and idx > 0 else []
         bad, n = semantics.compare_rule(mf, r, rm, atomic, ks=(1, 2) if ctx.tier == "quick" else (1, 2, 3))
         total += n
